@@ -1,6 +1,6 @@
 CONSTANTS
   Mode = "ast"
-  Lim = 5
+  Lim = 4
   MaxLen = 6
 INIT Init
 NEXT Next
